@@ -2,118 +2,303 @@
 Impl/C15Dml.lean — model of Table.update / Table.delete (sqlframe/base/mixins/table_mixins.py) and
 LazyExpression (sqlframe/base/table.py) around the regenerated `Gen.Dml`.
 
-* ENGINE (assumed): SQL `UPDATE t SET … WHERE p` / `DELETE FROM t WHERE p` on a Core table with
-  Core/Expr semantics — right-hand sides read the *old* row, a row is selected only when the
-  predicate is TRUE (NULL selects nothing); a statement that does not bind (unknown column, a
-  qualifier that is not the statement's table, `expr AS alias` in WHERE) fails without effect.
-* SQLFRAME (modelled): the statement the builder produces — default predicate, the re-qualification
-  rewrite of column references (per reference style), alias stripping, string predicates, and that
-  nothing runs before `execute()`.
-* SPECIFICATION: the same SQL semantics applied to what the user wrote, references read as the
-  table's own columns.
+* ENGINE (assumed): SQL `UPDATE t SET … WHERE p` / `DELETE FROM t WHERE p` on a Core table —
+  right-hand sides read the *old* row, a row is selected only when the predicate is TRUE (NULL selects
+  nothing); scalar expressions have Core/Expr's three-valued meaning, extended here (`evalS`) by IN-lists,
+  LIKE, and subqueries over one other table `O` (`x IN (SELECT e FROM o WHERE p)`, `EXISTS (…)`) with SQL's
+  scoping: inside a subquery a bare name is the subquery's column if `o` has one of that name, the target
+  row's column otherwise.  A statement that does not bind (unknown column, a qualifier that is not the
+  statement's table, `expr AS alias` in WHERE) fails without effect.
+* SQLFRAME (modelled): the statement the builder produces — default predicate, which dialect reads a
+  SQL-string predicate (`Gen.Dml.predDialect`; what that means for double-quoted tokens, backticks and
+  backslash escapes: `lexOf`), the re-qualification rewrite of column references, which walks into
+  subqueries as well (`mapQ`), alias stripping, and that nothing runs before `execute()`.
+* SPECIFICATION: the same SQL semantics applied to what the user wrote — references read as the table's
+  own columns, SQL text read as Spark SQL.
 -/
 import SqlframeModel.Core.Table
 import SqlframeModel.Gen.Dml
 namespace Sqlframe.C15
 open Sqlframe Sqlframe.Gen.Dml
 
-/-- Core/Expr with a table qualifier on every column reference -/
+/-- scalar expressions with a table qualifier on every column reference -/
 inductive QExpr
   | col (q : Qual) (n : Name)
   | lit (v : Val)
+  | tok (raw : String) (dq : Bool)
+      -- a string-literal token of a SQL text: the characters between the quotes, and whether the
+      -- quotes are double quotes.  Its Spark SQL meaning is the string `unescape raw`.
   | bin (op : BinOp) (a b : QExpr)
   | not (a : QExpr)
   | neg (a : QExpr)
   | isNull (a : QExpr)
   | ite (c t e : QExpr)
+  | inList (a : QExpr) (vs : List Val)          -- a IN (v1, …, vn)
+  | like (a : QExpr) (pat : String)             -- a LIKE 'pat'   (`%`, `_`; no escape character)
+  | inSub (a sel whr : QExpr)                   -- a IN (SELECT sel FROM o WHERE whr)
+  | exists_ (whr : QExpr)                       -- EXISTS (SELECT 1 FROM o WHERE whr)
   deriving DecidableEq, Repr
 
-def QExpr.strip : QExpr → Expr
-  | .col _ n => .col n
-  | .lit v => .lit v
-  | .bin op a b => .bin op a.strip b.strip
-  | .not a => .not a.strip
-  | .neg a => .neg a.strip
-  | .isNull a => .isNull a.strip
-  | .ite c t e => .ite c.strip t.strip e.strip
-
+/-- qualifiers of all references, those inside subqueries included -/
 def QExpr.quals : QExpr → List Qual
   | .col q _ => [q]
   | .lit _ => []
+  | .tok _ _ => []
   | .bin _ a b => a.quals ++ b.quals
   | .not a => a.quals
   | .neg a => a.quals
   | .isNull a => a.quals
   | .ite c t e => c.quals ++ t.quals ++ e.quals
+  | .inList a _ => a.quals
+  | .like a _ => a.quals
+  | .inSub a s w => a.quals ++ s.quals ++ w.quals
+  | .exists_ w => w.quals
 
-/-- the re-qualification rewrite: every reference's qualifier goes through `f` -/
+/-- the re-qualification rewrite: `find_all(exp.Column)` visits every reference of the tree — those
+    inside subqueries too — and each qualifier goes through `f` -/
 def QExpr.mapQ (f : Qual → Qual) : QExpr → QExpr
   | .col q n => .col (f q) n
   | .lit v => .lit v
+  | .tok r d => .tok r d
   | .bin op a b => .bin op (a.mapQ f) (b.mapQ f)
   | .not a => .not (a.mapQ f)
   | .neg a => .neg (a.mapQ f)
   | .isNull a => .isNull (a.mapQ f)
   | .ite c t e => .ite (c.mapQ f) (t.mapQ f) (e.mapQ f)
+  | .inList a vs => .inList (a.mapQ f) vs
+  | .like a p => .like (a.mapQ f) p
+  | .inSub a s w => .inSub (a.mapQ f) (s.mapQ f) (w.mapQ f)
+  | .exists_ w => .exists_ (w.mapQ f)
 
-/-- what resolves in a DataFrame built on the table handle: `table['k']` (the CTE's name) and bare names -/
+/-- no subquery anywhere: an expression over the row's own values -/
+def QExpr.flat : QExpr → Bool
+  | .col _ _ => true
+  | .lit _ => true
+  | .tok _ _ => true
+  | .bin _ a b => a.flat && b.flat
+  | .not a => a.flat
+  | .neg a => a.flat
+  | .isNull a => a.flat
+  | .ite c t e => c.flat && t.flat && e.flat
+  | .inList a _ => a.flat
+  | .like a _ => a.flat
+  | .inSub _ _ _ => false
+  | .exists_ _ => false
+
+/-- no string-literal token that a lexer could read in more than one way: no double-quoted token and
+    no backslash inside a literal -/
+def QExpr.plainToks : QExpr → Bool
+  | .col _ _ => true
+  | .lit _ => true
+  | .tok r d => !d && decide ('\\' ∉ r.toList)
+  | .bin _ a b => a.plainToks && b.plainToks
+  | .not a => a.plainToks
+  | .neg a => a.plainToks
+  | .isNull a => a.plainToks
+  | .ite c t e => c.plainToks && t.plainToks && e.plainToks
+  | .inList a _ => a.plainToks
+  | .like a _ => a.plainToks
+  | .inSub a s w => a.plainToks && s.plainToks && w.plainToks
+  | .exists_ w => w.plainToks
+
+/-- inside a subquery (`ins`), no bare name that the subquery's table has as well: nothing a rewrite
+    `bare ↦ t.bare` could capture -/
+def QExpr.noCapture (ocols : List Name) : QExpr → Bool → Bool
+  | .col q n, ins => !(ins && decide (q = Qual.none) && decide (n ∈ ocols))
+  | .lit _, _ => true
+  | .tok _ _, _ => true
+  | .bin _ a b, ins => a.noCapture ocols ins && b.noCapture ocols ins
+  | .not a, ins => a.noCapture ocols ins
+  | .neg a, ins => a.noCapture ocols ins
+  | .isNull a, ins => a.noCapture ocols ins
+  | .ite c t e, ins => c.noCapture ocols ins && t.noCapture ocols ins && e.noCapture ocols ins
+  | .inList a _, ins => a.noCapture ocols ins
+  | .like a _, ins => a.noCapture ocols ins
+  | .inSub a s w, ins => a.noCapture ocols ins && s.noCapture ocols true && w.noCapture ocols true
+  | .exists_ w, _ => w.noCapture ocols true
+
+/-! ### lexical reading of SQL text -/
+
+/-- backslash escapes of a Spark SQL string literal (`\\`, `\'`, `\"`: the escaped character itself;
+    the generator writes no other escape) -/
+def unescape : List Char → List Char
+  | [] => []
+  | c :: rest =>
+    if c = '\\' then (match rest with | [] => [c] | d :: rest' => d :: unescape rest')
+    else c :: unescape rest
+
+/-- the Spark SQL meaning of a string-literal token -/
+def tokVal (raw : String) : Val := .str (String.ofList (unescape raw.toList))
+
+/-- what a lexer does with the three forms on which sqlglot's dialects differ -/
+structure Lex where
+  dqString : Bool       -- "x" is a string literal (else: a quoted identifier)
+  backtick : Bool       -- `x` is a quoted identifier (else: the text does not tokenize)
+  escapes : Bool        -- a backslash inside a literal escapes the next character
+  deriving DecidableEq, Repr
+
+def sparkLex : Lex := { dqString := true, backtick := true, escapes := true }
+
+/-- sqlglot 26's tokenizers, by dialect name ("" = the default dialect); assumed, and compared with the
+    installed sqlglot on every run of the check -/
+def lexOf (d : String) : Lex :=
+  { dqString := d ∈ ["spark", "spark2", "databricks", "hive", "mysql", "bigquery", "doris", "starrocks"],
+    backtick := d ∈ ["spark", "spark2", "databricks", "hive", "mysql", "bigquery", "doris", "starrocks", "sqlite", "clickhouse"],
+    escapes := d ∈ ["spark", "spark2", "databricks", "hive", "mysql", "bigquery", "doris", "starrocks", "snowflake", "redshift", "clickhouse"] }
+
+def dialectName : Dialect → String
+  | .sessionInput => Gen.Dml.sessionInputDefault
+  | .sessionOutput => Gen.Dml.sessionOutputDefault
+  | .generic => ""
+  | .named s => s
+
+/-- a SQL text's tokens as lexer `lx` reads them -/
+def QExpr.readTok (lx : Lex) : QExpr → QExpr
+  | .col q n => .col q n
+  | .lit v => .lit v
+  | .tok r d =>
+    if d && !lx.dqString then .col .none r
+    else if lx.escapes then .tok r d else .lit (.str r)
+  | .bin op a b => .bin op (a.readTok lx) (b.readTok lx)
+  | .not a => .not (a.readTok lx)
+  | .neg a => .neg (a.readTok lx)
+  | .isNull a => .isNull (a.readTok lx)
+  | .ite c t e => .ite (c.readTok lx) (t.readTok lx) (e.readTok lx)
+  | .inList a vs => .inList (a.readTok lx) vs
+  | .like a p => .like (a.readTok lx) p
+  | .inSub a s w => .inSub (a.readTok lx) (s.readTok lx) (w.readTok lx)
+  | .exists_ w => .exists_ (w.readTok lx)
+
+/-! ### scalar semantics -/
+
+/-- `a IN (v1, …, vn)` is `a = v1 OR … OR a = vn` in three-valued logic (FALSE for no values) -/
+def inSem (a : Val) (vs : List Val) : Val := vs.foldl (fun acc v => or3 acc (binSem .eq a v)) (.bool false)
+
+def tails {α} : List α → List (List α)
+  | [] => [[]]
+  | a :: as => (a :: as) :: tails as
+
+/-- LIKE: `%` any run of characters, `_` one character -/
+def likeM : List Char → List Char → Bool
+  | [], s => s.isEmpty
+  | p :: ps, s =>
+    if p = '%' then (tails s).any (likeM ps)
+    else match s with
+      | [] => false
+      | c :: cs => (p = '_' || p = c) && likeM ps cs
+
+/-- a column reference, `inner` = the rows of the enclosing subqueries (innermost first), `r` the
+    target table's row: a bare name is the innermost subquery's column when `o` has one of that name -/
+def resolve (O : Table) (cols : List Name) (r : Row) (inner : List Row) (q : Qual) (n : Name) : Val :=
+  match q, inner with
+  | .none, i :: _ => if n ∈ O.cols then lookup O.cols i n else lookup cols r n
+  | .sub, i :: _ => lookup O.cols i n
+  | .sub, [] => .null
+  | _, _ => lookup cols r n
+
+def evalS (O : Table) (cols : List Name) (r : Row) : QExpr → List Row → Val
+  | .col q n, inner => resolve O cols r inner q n
+  | .lit v, _ => v
+  | .tok raw _, _ => tokVal raw
+  | .bin op a b, inner => binSem op (evalS O cols r a inner) (evalS O cols r b inner)
+  | .not a, inner => not3 (evalS O cols r a inner)
+  | .neg a, inner => match evalS O cols r a inner with | .int i => .int (-i) | _ => .null
+  | .isNull a, inner => .bool (evalS O cols r a inner = .null)
+  | .ite c t e, inner => if isTrue (evalS O cols r c inner) then evalS O cols r t inner else evalS O cols r e inner
+  | .inList a vs, inner => inSem (evalS O cols r a inner) vs
+  | .like a pat, inner => match evalS O cols r a inner with | .str s => .bool (likeM pat.toList s.toList) | _ => .null
+  | .inSub a sel whr, inner =>
+    inSem (evalS O cols r a inner)
+      ((O.rows.filter (fun i => isTrue (evalS O cols r whr (i :: inner)))).map (fun i => evalS O cols r sel (i :: inner)))
+  | .exists_ whr, inner => .bool (O.rows.any (fun i => isTrue (evalS O cols r whr (i :: inner))))
+
+/-- what resolves in a DataFrame built on the table handle: `table['k']` (the CTE's name) and bare
+    names; `o.k` is a reference the user can write inside a subquery on `o` -/
 def userScope : Qual → Bool
-  | .none => true | .cte => true | _ => false
+  | .none => true | .cte => true | .sub => true | _ => false
 
 /-- what resolves inside `UPDATE t …` / `DELETE FROM t …` on the physical table: `t.k` and bare names -/
 def dmlScope : Qual → Bool
-  | .none => true | .phys => true | _ => false
+  | .none => true | .phys => true | .sub => true | _ => false
+
+/-- every reference resolves: `ins` = inside a subquery on `o` -/
+def binds (sc : Qual → Bool) (ocols cols : List Name) : QExpr → Bool → Bool
+  | .col q n, ins =>
+    (match q with
+     | .none => decide (n ∈ cols) || (ins && decide (n ∈ ocols))
+     | .sub => ins && decide (n ∈ ocols)
+     | q => sc q && decide (n ∈ cols))
+  | .lit _, _ => true
+  | .tok _ _, _ => true
+  | .bin _ a b, ins => binds sc ocols cols a ins && binds sc ocols cols b ins
+  | .not a, ins => binds sc ocols cols a ins
+  | .neg a, ins => binds sc ocols cols a ins
+  | .isNull a, ins => binds sc ocols cols a ins
+  | .ite c t e, ins => binds sc ocols cols c ins && binds sc ocols cols t ins && binds sc ocols cols e ins
+  | .inList a _, ins => binds sc ocols cols a ins
+  | .like a _, ins => binds sc ocols cols a ins
+  | .inSub a s w, ins => binds sc ocols cols a ins && binds sc ocols cols s true && binds sc ocols cols w true
+  | .exists_ w, _ => binds sc ocols cols w true
 
 /-- a scalar expression in a scope: `none` is a Binder error -/
-def evalQ (sc : Qual → Bool) (cols : List Name) (r : Row) (e : QExpr) : Option Val :=
-  if e.quals.all sc && e.strip.refs.all (fun n => n ∈ cols) then some (eval cols r e.strip) else none
+def evalQ (sc : Qual → Bool) (O : Table) (cols : List Name) (r : Row) (e : QExpr) : Option Val :=
+  if binds sc O.cols cols e false then some (evalS O cols r e []) else none
 
-def bindable (sc : Qual → Bool) (cols : List Name) (e : QExpr) : Bool :=
-  e.quals.all sc && e.strip.refs.all (fun n => n ∈ cols)
+/-- Core/Expr inside QExpr, every reference with qualifier `q` -/
+def ofCore (q : Qual) : Expr → QExpr
+  | .col n => .col q n
+  | .lit v => .lit v
+  | .bin op a b => .bin op (ofCore q a) (ofCore q b)
+  | .not a => .not (ofCore q a)
+  | .neg a => .neg (ofCore q a)
+  | .isNull a => .isNull (ofCore q a)
+  | .ite c t e => .ite (ofCore q c) (ofCore q t) (ofCore q e)
 
 /-! ### engine -/
 
-def setLookup : List (Name × Expr) → Name → Option Expr
+def setLookup : List (Name × QExpr) → Name → Option QExpr
   | [], _ => none
   | (k, e) :: rest, n => if k = n then some e else setLookup rest n
 
 /-- the new row: every assigned column gets its expression evaluated on the OLD row -/
-def assignRow (cols : List Name) (sets : List (Name × Expr)) (r : Row) : Row :=
-  (cols.zip r).map (fun cv => match setLookup sets cv.1 with | some e => eval cols r e | none => cv.2)
+def assignRow (O : Table) (cols : List Name) (sets : List (Name × QExpr)) (r : Row) : Row :=
+  (cols.zip r).map (fun cv => match setLookup sets cv.1 with | some e => evalS O cols r e [] | none => cv.2)
 
-def sqlUpdate (T : Table) (sets : List (Name × Expr)) (p : Expr) : Table :=
-  { T with rows := T.rows.map (fun r => if isTrue (eval T.cols r p) then assignRow T.cols sets r else r) }
+def sqlUpdate (O T : Table) (sets : List (Name × QExpr)) (p : QExpr) : Table :=
+  { T with rows := T.rows.map (fun r => if isTrue (evalS O T.cols r p []) then assignRow O T.cols sets r else r) }
 
-def sqlDelete (T : Table) (p : Expr) : Table :=
-  { T with rows := T.rows.filter (fun r => !isTrue (eval T.cols r p)) }
+def sqlDelete (O T : Table) (p : QExpr) : Table :=
+  { T with rows := T.rows.filter (fun r => !isTrue (evalS O T.cols r p [])) }
 
 inductive Stmt
   | update (target : Qual) (sets : List (Name × QExpr)) (setsAliased : Bool) (pred : QExpr) (predAliased : Bool)
   | delete (target : Qual) (pred : QExpr) (predAliased : Bool)
   deriving DecidableEq, Repr
 
-def setsBind (cols : List Name) (sets : List (Name × QExpr)) : Bool :=
-  sets.all (fun s => decide (s.1 ∈ cols) && bindable dmlScope cols s.2) && decide (sets.map (·.1)).Nodup
+def setsBind (sc : Qual → Bool) (ocols cols : List Name) (sets : List (Name × QExpr)) : Bool :=
+  sets.all (fun s => decide (s.1 ∈ cols) && binds sc ocols cols s.2 false) && decide (sets.map (·.1)).Nodup
 
 /-- one statement on the table; `none`: the engine rejects it and nothing changes -/
-def execStmt : Stmt → Table → Option Table
+def execStmt (O : Table) : Stmt → Table → Option Table
   | .update tgt sets sal p al, T =>
-    if tgt = .phys && !sal && !al && bindable dmlScope T.cols p && setsBind T.cols sets
-    then some (sqlUpdate T (sets.map (fun s => (s.1, s.2.strip))) p.strip) else none
+    if tgt = .phys && !sal && !al && binds dmlScope O.cols T.cols p false && setsBind dmlScope O.cols T.cols sets
+    then some (sqlUpdate O T sets p) else none
   | .delete tgt p al, T =>
-    if tgt = .phys && !al && bindable dmlScope T.cols p
-    then some (sqlDelete T p.strip) else none
+    if tgt = .phys && !al && binds dmlScope O.cols T.cols p false
+    then some (sqlDelete O T p) else none
 
 /-! ### sqlframe: building the statement -/
 
 /-- a predicate as the user passes it -/
 inductive PredIn
   | absent                                   -- where=None
-  | expr (e : QExpr) (aliased : Bool)        -- a Column over table['c'] / F.col('c'), possibly `.alias(…)`ed
-  | sql (e : QExpr) (text : String) (wrapped : Bool)
-      -- a SQL string; `e` is its meaning (references unqualified); `wrapped`: the text is one
-      -- parenthesised expression, which `F.col(text)` (sqlglot `to_column`) happens to parse as an
-      -- expression instead of taking it for a column name
+  | expr (e : QExpr) (aliased : Bool)
+      -- a Column over table['c'] / F.col('c') / F.expr("…") pieces, possibly `.alias(…)`ed
+  | sql (e : QExpr) (text : String) (wrapped : Bool) (backticks : Bool)
+      -- a SQL string; `e` is its syntax tree (references unqualified or `o.`-qualified, string literals
+      -- as tokens); `wrapped`: the text is one parenthesised expression, which `F.col(text)` (sqlglot
+      -- `to_column`) happens to parse as an expression instead of taking it for a column name;
+      -- `backticks`: some identifier is spelled in backticks
   deriving DecidableEq, Repr
 
 inductive Dml
@@ -126,6 +311,7 @@ inductive Dml
 structure Flags where
   defaultPred : Bool
   predStringParsed : Bool
+  predLex : Lex
   predMatches : Qual → Bool
   predTo : Qual
   predElseRaises : Bool
@@ -141,6 +327,7 @@ structure Flags where
 
 def genFlags : Flags :=
   { defaultPred := Gen.Dml.defaultPred, predStringParsed := Gen.Dml.predStringParsed,
+    predLex := lexOf (dialectName Gen.Dml.predDialect),
     predMatches := Gen.Dml.predMatches, predTo := Gen.Dml.predTo, predElseRaises := Gen.Dml.predElseRaises,
     predAliasStripped := Gen.Dml.predAliasStripped,
     rhsMatches := Gen.Dml.rhsMatches, rhsTo := Gen.Dml.rhsTo, rhsElseRaises := Gen.Dml.rhsElseRaises,
@@ -161,8 +348,14 @@ def buildPred (fl : Flags) : PredIn → Option (QExpr × Bool)
   | .expr e al =>
     if rejects fl.predMatches fl.predElseRaises e then none
     else some (e.mapQ (qmap fl.predMatches fl.predTo), al && !fl.predAliasStripped)
-  | .sql e txt wrapped =>
-    if fl.predStringParsed || wrapped then
+  | .sql e txt wrapped bt =>
+    if fl.predStringParsed then
+      (if bt && !fl.predLex.backtick then none                 -- the text does not tokenize
+       else
+        let e' := e.readTok fl.predLex
+        if rejects fl.predMatches fl.predElseRaises e' then none else some (e'.mapQ (qmap fl.predMatches fl.predTo), false))
+    else if wrapped then
+      -- `F.col(text)`: sqlglot's `to_column` parses a parenthesised text, in the session's input dialect
       (if rejects fl.predMatches fl.predElseRaises e then none else some (e.mapQ (qmap fl.predMatches fl.predTo), false))
     else some (.col .none txt, false)          -- the whole text is taken for one column name
 
@@ -182,11 +375,11 @@ def build (fl : Flags) : Dml → Option Stmt
     | none => none
 
 /-- build + execute(); an error anywhere leaves the table as it was -/
-def applyDml (fl : Flags) (d : Dml) (T : Table) : Option Table :=
-  (build fl d).bind (fun st => execStmt st T)
+def applyDml (fl : Flags) (O : Table) (d : Dml) (T : Table) : Option Table :=
+  (build fl d).bind (fun st => execStmt O st T)
 
-def runDml (fl : Flags) (ds : List Dml) (T : Table) : Table :=
-  ds.foldl (fun t d => (applyDml fl d t).getD t) T
+def runDml (fl : Flags) (O : Table) (ds : List Dml) (T : Table) : Table :=
+  ds.foldl (fun t d => (applyDml fl O d t).getD t) T
 
 /-! ### laziness: a session with the LazyExpressions created so far -/
 
@@ -205,72 +398,79 @@ def listGet {α} : List α → Nat → Option α
   | a :: _, 0 => some a
   | _ :: as, n + 1 => listGet as n
 
-def stepCmd (fl : Flags) : Cmd → Sess → Sess
+def stepCmd (fl : Flags) (O : Table) : Cmd → Sess → Sess
   | .build d, s =>
     let st := build fl d
-    { tbl := if fl.buildExecutes then ((st.bind (fun x => execStmt x s.tbl)).getD s.tbl) else s.tbl,
+    { tbl := if fl.buildExecutes then ((st.bind (fun x => execStmt O x s.tbl)).getD s.tbl) else s.tbl,
       lazies := s.lazies ++ [st] }
   | .exec i, s =>
     match listGet s.lazies i with
-    | some (some st) => if fl.executeRuns then { s with tbl := (execStmt st s.tbl).getD s.tbl } else s
+    | some (some st) => if fl.executeRuns then { s with tbl := (execStmt O st s.tbl).getD s.tbl } else s
     | _ => s
 
-def runCmds (fl : Flags) (cs : List Cmd) (s : Sess) : Sess := cs.foldl (fun s c => stepCmd fl c s) s
+def runCmds (fl : Flags) (O : Table) (cs : List Cmd) (s : Sess) : Sess := cs.foldl (fun s c => stepCmd fl O c s) s
 
 /-! ### specification -/
 
-def specPred : PredIn → Expr
+/-- the predicate the user means: an omitted one selects every row; SQL text is Spark SQL (`evalS`
+    gives a token its Spark meaning) -/
+def specPred : PredIn → QExpr
   | .absent => .lit (.bool true)
-  | .expr e _ => e.strip
-  | .sql e _ _ => e.strip
-
-def refsIn (cols : List Name) (e : Expr) : Bool := e.refs.all (fun n => n ∈ cols)
+  | .expr e _ => e
+  | .sql e _ _ _ => e
 
 /-- what the call means: the same SQL semantics on the user's expressions; `none`: the call is
     invalid (unknown column, a column assigned twice) and nothing changes -/
-def specDml : Dml → Table → Option Table
+def specDml (O : Table) : Dml → Table → Option Table
   | .update sets p _, T =>
-    if refsIn T.cols (specPred p) && sets.all (fun s => decide (s.1 ∈ T.cols) && refsIn T.cols s.2.strip) && decide (sets.map (·.1)).Nodup
-    then some (sqlUpdate T (sets.map (fun s => (s.1, s.2.strip))) (specPred p)) else none
+    if binds userScope O.cols T.cols (specPred p) false && setsBind userScope O.cols T.cols sets
+    then some (sqlUpdate O T sets (specPred p)) else none
   | .delete p, T =>
-    if refsIn T.cols (specPred p) then some (sqlDelete T (specPred p)) else none
+    if binds userScope O.cols T.cols (specPred p) false then some (sqlDelete O T (specPred p)) else none
 
-def specRun (ds : List Dml) (T : Table) : Table := ds.foldl (fun t d => (specDml d t).getD t) T
+def specRun (O : Table) (ds : List Dml) (T : Table) : Table := ds.foldl (fun t d => (specDml O d t).getD t) T
 
 structure SpecSess where
   tbl : Table
   pending : List Dml := []
 
-def specCmd : Cmd → SpecSess → SpecSess
+def specCmd (O : Table) : Cmd → SpecSess → SpecSess
   | .build d, s => { s with pending := s.pending ++ [d] }
   | .exec i, s =>
     match listGet s.pending i with
-    | some d => { s with tbl := (specDml d s.tbl).getD s.tbl }
+    | some d => { s with tbl := (specDml O d s.tbl).getD s.tbl }
     | none => s
 
-def specCmds (cs : List Cmd) (s : SpecSess) : SpecSess := cs.foldl (fun s c => specCmd c s) s
+def specCmds (O : Table) (cs : List Cmd) (s : SpecSess) : SpecSess := cs.foldl (fun s c => specCmd O c s) s
 
 /-! ### scope -/
 
 def PredIn.quals : PredIn → List Qual
   | .absent => []
   | .expr e _ => e.quals
-  | .sql e _ _ => e.quals
+  | .sql e _ _ _ => e.quals
 
-/-- a SQL string mentions bare column names only -/
+/-- a SQL string mentions bare (or, inside a subquery, `o.`-qualified) column names only -/
 def PredIn.sqlBare : PredIn → Prop
-  | .sql e _ _ => ∀ q ∈ e.quals, q = .none
+  | .sql e _ _ _ => ∀ q ∈ e.quals, q = .none ∨ q = .sub
   | _ => True
 instance (p : PredIn) : Decidable p.sqlBare := by cases p <;> unfold PredIn.sqlBare <;> exact inferInstance
 
 /-- a SQL string that is taken for a column name unless strings are parsed -/
 def PredIn.isSql : PredIn → Bool
-  | .sql _ _ wrapped => !wrapped
+  | .sql _ _ wrapped _ => !wrapped
   | _ => false
 
-/-- the reference styles of the property: table['c'] and F.col('c'); SQL strings mention bare names -/
+/-- a SQL string whose reading depends on the lexer: double-quoted tokens, backslashes, backticks -/
+def PredIn.lexSensitive : PredIn → Bool
+  | .sql e _ _ bt => bt || !e.plainToks
+  | _ => false
+
+/-- the reference styles of the property: table['c'] and F.col('c'); SQL strings mention bare names;
+    assignment values are expressions over the row's own old values (no subquery) -/
 def Dml.WF : Dml → Prop
-  | .update sets p _ => (∀ q ∈ p.quals, userScope q = true) ∧ (∀ s ∈ sets, ∀ q ∈ s.2.quals, userScope q = true) ∧ p.sqlBare
+  | .update sets p _ => (∀ q ∈ p.quals, userScope q = true) ∧ (∀ s ∈ sets, ∀ q ∈ s.2.quals, q = .none ∨ q = .cte) ∧ p.sqlBare
+      ∧ (∀ s ∈ sets, s.2.flat = true)
   | .delete p => (∀ q ∈ p.quals, userScope q = true) ∧ p.sqlBare
 
 instance (d : Dml) : Decidable d.WF := by
@@ -288,13 +488,14 @@ def Dml.rhsAliased : Dml → Bool
   | .update _ _ a => a
   | .delete _ => false
 
-/-- an assignment value may mention a column through `F.col('k')` -/
+/-- an assignment value may mention a column through `F.col('k')`: the loop's `else: raise` must not fire
+    for a reference the user can write -/
 def H_rhsUnqualified (fl : Flags) (d : Dml) : Prop :=
-  fl.rhsElseRaises = false ∨ fl.rhsMatches .none = true ∨ ∀ s ∈ d.sets, Qual.none ∉ s.2.quals
+  fl.rhsElseRaises = false ∨ ∀ s ∈ d.sets, ∀ q ∈ s.2.quals, fl.rhsMatches q = true
 
 /-- the predicate loop must not reject bare names either -/
 def H_predUnqualified (fl : Flags) (d : Dml) : Prop :=
-  fl.predElseRaises = false ∨ fl.predMatches .none = true ∨ Qual.none ∉ d.pred.quals
+  fl.predElseRaises = false ∨ ∀ q ∈ d.pred.quals, fl.predMatches q = true
 
 /-- a SQL-string predicate must be parsed -/
 def H_predString (fl : Flags) (d : Dml) : Prop :=
@@ -304,20 +505,34 @@ def H_predString (fl : Flags) (d : Dml) : Prop :=
 def H_rhsAlias (fl : Flags) (d : Dml) : Prop := fl.rhsAliasStripped = true ∨ d.rhsAliased = false
 instance (fl : Flags) (d : Dml) : Decidable (H_rhsAlias fl d) := by unfold H_rhsAlias; exact inferInstance
 
+/-- the predicate loop must leave bare names alone, or no bare name inside a subquery is one that the
+    subquery's own table has (re-targeting it to the target table would capture it) -/
+def H_predCapture (fl : Flags) (ocols : List Name) (d : Dml) : Prop :=
+  fl.predMatches .none = false ∨ (specPred d.pred).noCapture ocols false = true
+
+/-- a SQL-string predicate must be read by a lexer that agrees with Spark SQL's on double-quoted
+    tokens, backticks and backslash escapes, or contain none of them -/
+def H_predDialect (fl : Flags) (d : Dml) : Prop :=
+  fl.predLex = sparkLex ∨ d.pred.lexSensitive = false
+
 instance (fl : Flags) (d : Dml) : Decidable (H_rhsUnqualified fl d) := by unfold H_rhsUnqualified; exact inferInstance
 instance (fl : Flags) (d : Dml) : Decidable (H_predUnqualified fl d) := by unfold H_predUnqualified; exact inferInstance
 instance (fl : Flags) (d : Dml) : Decidable (H_predString fl d) := by
   unfold H_predString; exact inferInstance
+instance (fl : Flags) (oc : List Name) (d : Dml) : Decidable (H_predCapture fl oc d) := by unfold H_predCapture; exact inferInstance
+instance (fl : Flags) (d : Dml) : Decidable (H_predDialect fl d) := by unfold H_predDialect; exact inferInstance
 
-def InScope (fl : Flags) (d : Dml) : Prop :=
-  H_rhsUnqualified fl d ∧ H_predUnqualified fl d ∧ H_predString fl d ∧ H_rhsAlias fl d
-instance (fl : Flags) (d : Dml) : Decidable (InScope fl d) := by unfold InScope; exact inferInstance
+def InScope (fl : Flags) (ocols : List Name) (d : Dml) : Prop :=
+  H_rhsUnqualified fl d ∧ H_predUnqualified fl d ∧ H_predString fl d ∧ H_rhsAlias fl d ∧ H_predCapture fl ocols d ∧ H_predDialect fl d
+instance (fl : Flags) (oc : List Name) (d : Dml) : Decidable (InScope fl oc d) := by unfold InScope; exact inferInstance
 
-def violated (d : Dml) : List String :=
+def violated (ocols : List Name) (d : Dml) : List String :=
   (if H_rhsUnqualified genFlags d then [] else ["H_rhsUnqualified"]) ++
   (if H_predUnqualified genFlags d then [] else ["H_predUnqualified"]) ++
   (if H_predString genFlags d then [] else ["H_predString"]) ++
   (if H_rhsAlias genFlags d then [] else ["H_rhsAlias"]) ++
+  (if H_predCapture genFlags ocols d then [] else ["H_predCapture"]) ++
+  (if H_predDialect genFlags d then [] else ["H_predDialect"]) ++
   (if d.WF then [] else ["D_refStyles"])
 
 /-- the decisions no hypothesis excuses -/
@@ -326,6 +541,6 @@ def flagsOk (fl : Flags) : Bool :=
   fl.rhsMatches .cte && decide (fl.rhsTo = .phys) &&
   decide (fl.updateTarget = .phys) && decide (fl.deleteTarget = .phys) &&
   !fl.buildExecutes && fl.executeRuns &&
-  !fl.predMatches .other && !fl.rhsMatches .other
+  !fl.predMatches .other && !fl.rhsMatches .other && !fl.predMatches .sub && !fl.rhsMatches .sub
 
 end Sqlframe.C15
